@@ -87,7 +87,7 @@ Inductive chart := Chart {
   cdeps : list chart;                       (* chart.Dependencies() *)
   cmdeps : option (list dependency);        (* Metadata.Dependencies; None = nil slice *)
   ctemplates : list string;                 (* names, e.g. templates/probe.yaml *)
-  ccrds : bool }.                           (* has files under crds/ *)
+  ccrds : list string }.                    (* names of the manifest files under crds/, e.g. crds/x.yaml *)
 
 Definition set_name (c : chart) (n : string) : chart :=
   Chart n (cversion c) (cvalues c) (cschema c) (cdeps c) (cmdeps c) (ctemplates c) (ccrds c).
@@ -273,6 +273,21 @@ Fixpoint last_wins (l : list (string * val)) : list (string * val) :=
   | [] => []
   | (k, v) :: t => if existsb (fun kv => String.eqb (fst kv) k) t then last_wins t
                    else (k, v) :: last_wins t
+  end.
+
+(* Chart.CRDObjects(): (File.Name, Filename = ChartFullPath/File.Name) of the chart's own crds/
+   files, then those of every chart in its dependency list, in order *)
+Fixpoint crd_objects (c : chart) (root : bool) (ppath : string) {struct c} : list (string * string) :=
+  match c with
+  | Chart name _ _ _ deps _ _ crds =>
+      let full := chart_full_path root ppath name in
+      List.app
+        (map (fun f => (f, full ++ "/" ++ f)) crds)
+        ((fix go (ds : list chart) : list (string * string) :=
+            match ds with
+            | [] => []
+            | d :: t => List.app (crd_objects d false full) (go t)
+            end) deps)
   end.
 
 Definition all_templates (c : chart) (values : vmap) : list (string * val) :=
